@@ -433,6 +433,24 @@ func (x *Exec) nilness(st *State, v Val) T {
 }
 
 func (x *Exec) cmpNil(st *State, op token.Token, a, b Val) Val {
+	// the nil constant of an interface type
+	if ib, ok := b.(*IfaceV); ok && !ib.Sym && ib.Typ == nil {
+		b = NilV{}
+	}
+	if ia, ok := a.(*IfaceV); ok && !ia.Sym && ia.Typ == nil {
+		a = NilV{}
+	}
+	if oa, ok := a.(*OpaqueV); ok {
+		if _, isNil := b.(NilV); isNil {
+			if n, has := oa.Data["isnil"]; has {
+				r := n.(T)
+				if op == token.NEQ {
+					return Not(r)
+				}
+				return r
+			}
+		}
+	}
 	if oa, ok := a.(*OpaqueV); ok {
 		if _, isNil := b.(NilV); !isNil {
 			// identity of opaque values is unknown
